@@ -355,6 +355,28 @@ type run struct {
 	tape *kernel.Tape
 	p    *plan
 	res  *kernel.Result
+	// one codec object per run, reused for the primary and the peer call: a codec
+	// is a value built once and used for many calls, no call may change it
+	prod runtime.Producer
+	cons runtime.Consumer
+}
+
+func (c *run) producer(o opts) runtime.Producer {
+	if c.prod == nil {
+		c.prod = runtime.CSVProducer(o.codec()...)
+	} else {
+		c.env.Probe("codec-reused")
+	}
+	return c.prod
+}
+
+func (c *run) consumer(o opts) runtime.Consumer {
+	if c.cons == nil {
+		c.cons = runtime.CSVConsumer(o.codec()...)
+	} else {
+		c.env.Probe("codec-reused")
+	}
+	return c.cons
 }
 
 func errKind(err error) string {
@@ -852,7 +874,7 @@ func (c *run) produce(sp *srcPlan, name string, text []byte, table [][]string) *
 		mustErr = wt.errAt >= 0
 		src = wt
 	}
-	prod := runtime.CSVProducer(o.codec()...)
+	prod := c.producer(o)
 	sinkFaults := env.Faults["write-error"]
 	env.Log(name, "Produce(%s) skip=%d", out.kind, o.Skip)
 	if sp.Kind == srcWriterTo {
@@ -1105,7 +1127,7 @@ func (c *run) consume(dp *dstPlan, name string, text []byte, w want) *outcome {
 	} else {
 		out.state = stateNames[state]
 	}
-	cons := runtime.CSVConsumer(o.codec()...)
+	cons := c.consumer(o)
 	sinkFaults := env.Faults["write-error"]
 	env.Log(name, "Consume(%s,%s) skip=%d", out.kind, out.state, o.Skip)
 	out.panicMsg = kernel.Catch(func() { out.err = cons.Consume(r, dest) })
